@@ -36,16 +36,18 @@ theorem calculate_checksum_eq (d : Bytes) :
   rw [Transl.Hytera.calculate_checksum_eq, hrnpChecksum_same]; rfl
 
 /-- `C04.hrnp_selfcheck` with the translated function: assemble header octets, length, the two octets the TRANSLATED
-`calculate_checksum` returns for header ‖ payload, payload — the parser's verdict is `checksum_correct` -/
+`calculate_checksum` returns for header ‖ payload, payload — the parser's verdict is `checksum_correct` (for a DATA packet
+the payload is one framed HDAP message, `HdapFramed`: the length cross-check of /repo bc140b5) -/
 theorem transl_hrnp_selfcheck (hd ver blk opc src dst pn : Nat) (inner : Bytes)
-    (hop : Gen.Integrity.hrnpOpcodes.contains opc = true) (hlen : 12 + inner.length < 65536) :
+    (hop : Gen.Integrity.hrnpOpcodes.contains opc = true) (hlen : 12 + inner.length < 65536)
+    (hf : opc = Gen.Integrity.hrnpData → Integrity.HdapFramed inner) :
     let head : Bytes := [hd, ver, blk, opc, src, dst, pn / 256 % 256, pn % 256,
       (12 + inner.length) / 256 % 256, (12 + inner.length) % 256]
     ∃ c, calculate_checksum (head ++ inner) = .ok c ∧ c.length = 2 ∧
       Integrity.hrnpDec (head ++ c ++ inner) false = .ok true := by
   intro head
   refine ⟨_, calculate_checksum_eq _, rfl, ?_⟩
-  exact C04.hrnp_selfcheck hd ver blk opc src dst pn inner hop hlen
+  exact C04.hrnp_selfcheck hd ver blk opc src dst pn inner hop hlen hf
 
 /-- the two octets the translated function returns determine the model's checksum value: equal answers of the translated
 `calculate_checksum` mean equal `hrnpChecksum` (what `C04.hrnp_single_bit_partial` compares is therefore the translated
